@@ -374,6 +374,14 @@ impl Terminals {
     }
 }
 
+#[cfg(parol_verif)]
+impl Terminals {
+    /// Verification hook: the raw 128 bit representation.
+    pub fn verif_raw(&self) -> u128 {
+        self.t
+    }
+}
+
 impl Ord for Terminals {
     fn cmp(&self, other: &Self) -> std::cmp::Ordering {
         match self.next_index().cmp(&other.next_index()) {
